@@ -118,7 +118,12 @@ func h1Consume(t *vhT, b []byte) {
 type h1Conn struct {
 	chunks [][]byte
 	reads  int
+	// eofWithData: the Read that delivers the last bytes of the stream also reports io.EOF (allowed by io.Reader; crypto/tls
+	// does it when the peer's close_notify is already queued behind the data)
+	eofWithData bool
 }
+
+var h1EOFWithData bool // picked up by the next h1FramesCap call
 
 func (c *h1Conn) Read(p []byte) (int, error) {
 	c.reads++
@@ -130,6 +135,15 @@ func (c *h1Conn) Read(p []byte) (int, error) {
 	}
 	n := copy(p, c.chunks[0])
 	c.chunks[0] = c.chunks[0][n:]
+	if c.eofWithData {
+		rest := 0
+		for _, ch := range c.chunks {
+			rest += len(ch)
+		}
+		if rest == 0 {
+			return n, io.EOF
+		}
+	}
 	return n, nil
 }
 func (c *h1Conn) Write(p []byte) (int, error)      { return len(p), nil }
@@ -148,6 +162,11 @@ func h1Frames(t *vhT, chunks [][]byte, frames [][]byte, kind string) {
 	// inbound-MTU sized buffer): every frame must still be consumed exactly once
 	if t.Rng.Intn(5) == 0 {
 		h1FramesCap(t, chunks, nil, kind+"-smallbuf", []int{1, 7, 19, 64, 1600}[t.Rng.Intn(5)])
+	}
+	// the same stream with the end of the stream reported together with its last bytes: same frames
+	if t.Rng.Intn(3) == 0 {
+		h1EOFWithData = true
+		h1FramesCap(t, chunks, frames, kind+"-eofdata", 0)
 	}
 }
 
@@ -174,7 +193,8 @@ func h1FramesCap(t *vhT, chunks [][]byte, frames [][]byte, kind string, bufCap i
 	for i := range chunks {
 		cp[i] = append([]byte{}, chunks[i]...)
 	}
-	conn := &h1Conn{chunks: cp}
+	conn := &h1Conn{chunks: cp, eofWithData: h1EOFWithData}
+	h1EOFWithData = false
 	sc := NewSTUNConn(conn)
 	buf := make([]byte, 70000)
 	if bufCap > 0 {
